@@ -292,6 +292,30 @@ MaskExactlyOutside(t, nord, xs) ==
   \A a \in 1..Len(xs) : MaskOf(t, nord, xs[a]) = ~(QLt(xs[a], Lo(t, nord)) \/ QLt(Hi(t, nord), xs[a]))
 
 (***************************************************************************)
+(* Part 4 - representations of abscissae and breakpoints                   *)
+(***************************************************************************)
+(* The statement quantifies over VALUES.  The same values can reach the code in several numpy  *)
+(* representations (forms): floating or integer element types, byte-swapped, strided or         *)
+(* read-only memory.  A form can carry a sequence only if it represents every value exactly.    *)
+(* Nothing in parts 1-3 takes a form as an argument: the specified outcome of a call is a        *)
+(* function of the values alone (FormIndependent in the MC module states this for the cases).    *)
+Forms == {"f8", "f4", "i8", "i4", "i2", "u1", "f8swap", "f8strided", "f8readonly"}
+FormSeq == <<"f8", "i8", "f4", "i4", "f8swap", "i2", "f8strided", "u1", "f8readonly">>
+IntForms == {"i8", "i4", "i2", "u1"}
+Representable(form, x) ==
+  CASE form \in {"i8", "i4"} -> x[2] = 1
+    [] form = "i2" -> x[2] = 1 /\ x[1] >= -32768 /\ x[1] <= 32767
+    [] form = "u1" -> x[2] = 1 /\ x[1] >= 0 /\ x[1] <= 255
+    [] form = "f4" -> x[2] \in {1, 2, 4, 8, 16, 32, 64} /\ Abs(x[1]) < 1048576
+    [] OTHER -> TRUE
+RepresentsAll(form, xs) == \A k \in 1..Len(xs) : Representable(form, xs[k])
+(* float32 abscissae carry single precision: the result is demanded to single precision there  *)
+SinglePrecision(form) == form = "f4"
+(* the n-th (cyclically) of the forms that can carry xs *)
+PickForm(xs, n) == LET can == SelectSeq(FormSeq, LAMBDA f : RepresentsAll(f, xs)) IN can[(n % Len(can)) + 1]
+PickIntForm(xs, n) == LET can == SelectSeq(FormSeq, LAMBDA f : f \in IntForms /\ RepresentsAll(f, xs)) IN can[(n % Len(can)) + 1]
+
+(***************************************************************************)
 (* Named deviations (what pydl does today; see known_findings.json)        *)
 (***************************************************************************)
 (* D-C08-1: everyn - the sample index floor(nx/(nb-1))*(nb-1) is not clamped: it equals nx      *)
@@ -311,6 +335,11 @@ Dev_CoverFixFirstMax(data, opt, arg) ==
   LET raw == RawBreakpoints(data, opt, arg)
       n == Len(raw)
   IN n >= 2 /\ QLt(raw[n], QMaxSeq(data)) /\ raw[n - 1] = raw[n]
+(* D-C08-6: evaluating at an empty array of points raises instead of returning empty arrays *)
+Dev_EmptyPoints(xs) == xs = <<>>
+(* D-C08-7: breakpoints handed over in an integer or read-only array are used in place: padding  *)
+(* and coverage corrections are truncated / wrap around / raise                                   *)
+Dev_BreakpointArrayInPlace(opt, aform) == opt \in {"bkpt", "placed"} /\ aform \in IntForms \cup {"f8readonly"}
 (* the deviations a construction call is exposed to, and whether the documentation pins its     *)
 (* breakpoints down (every-n is documented for sorted data only; for unsorted data only the     *)
 (* laws of the statement are demanded)                                                           *)
